@@ -393,6 +393,14 @@ func rtschedMain(args []string) int {
 	if *envs != "" {
 		env = strings.Split(*envs, ",")
 	}
+	if *mode == "pressure" {
+		// one worker in pressure mode keeps as many processors busy as it is given (background collections, allocating goroutines,
+		// profiler signals): with the default 16 x 16 the machine was oversubscribed 16 times and cases timed out under load
+		env = append(env, "GOMAXPROCS=3")
+		if *workers > runtime.NumCPU()/3 {
+			*workers = runtime.NumCPU() / 3
+		}
+	}
 	byID := map[int]rtCase{}
 	cases := make(chan []byte, 256)
 	var perr error
